@@ -180,6 +180,251 @@ def nested_json_layout(nested):
     return res
 
 
+# ---------------------------------------------------------------------------------------------
+# attribute owners: the four views must attach every bitmap-linked value (class 33 value after 222000, marker
+# value 223255 / 224255 / 225255 / 232255) to the SAME element.  The flat views name the owner by its flat index
+# (`bitmap_links`, the `-> N` column of the flat text); the nested views show the value under its owner.
+LINK_KINDS = ('QualityInfo', 'Substitution', 'FirstOrderStats', 'DifferenceStats', 'Replacement')
+
+
+def flat_text_links(text):
+    """per subset: sorted [attribute index, owner index] pairs read from the `-> N` column of the flat text
+    (0-based), and the labels of the lines"""
+    subsets = []
+    in_data = False
+    for line in text.split('\n'):
+        if line.startswith('<<<<<<'):
+            in_data = False
+            continue
+        if line.startswith('######'):
+            subsets.append({'links': [], 'labels': []})
+            in_data = True
+            continue
+        if not in_data:
+            continue
+        idx = int(line[:5])
+        subsets[-1]['labels'].append(line[6:12])
+        if line[70:74] == ' -> ' and line[74:80].strip().isdigit():
+            subsets[-1]['links'].append([idx - 1, int(line[74:80]) - 1])
+    for s in subsets:
+        s['links'].sort()
+    return subsets
+
+
+def tree_links(nodes):
+    """canonical node tree (node_canon) of one subset -> set of (attribute index, owner index) for the attributes
+    that are bitmap-linked value nodes (by node class), at any depth"""
+    found = set()
+
+    def value_node(n, depth=0):
+        for a in n.get('a', []):
+            if a.get('k') in LINK_KINDS:
+                found.add((a['i'], n['i']))
+            if depth < MAX_ATTR_DEPTH:
+                value_node(a, depth + 1)
+
+    def walk(ns):
+        for n in ns:
+            if 'k' in n:
+                value_node(n)
+            else:
+                if 'f' in n:
+                    value_node(n['f'])
+                walk(n.get('m', []))
+    walk(nodes)
+    return found
+
+
+def is_link_label(label):
+    """label of a value that is shown as a (virtual) attribute because a bitmap links it: a class 33 element or a
+    marker (T/F/D/R + id); the other virtual attributes are meaning nodes (031021, 008023, 008024)"""
+    return label[:1] in 'TFDRM' or label[:3] == '033'
+
+
+def nested_json_owner_problems(nested, labels, values, links, exempt):
+    """Nested JSON of one subset against the flat view: the value nodes in document order carry the flat indices
+    0..n-1 (associated fields before their owner); under the node of flat index j the bitmap-linked (virtual)
+    attributes must be exactly the flat entries i with links[i] == j, in flat order, shown with the label and the
+    value of entry i - and so on for the attributes of those attributes.  -> list of descriptions"""
+    by_owner = {}
+    for a, o in links:
+        if a not in exempt:
+            by_owner.setdefault(o, []).append(a)
+    for o in by_owner:
+        by_owner[o].sort()
+    problems = []
+    counter = [0]
+
+    def check_attrs(p, j, depth):
+        shown = [a for a in p.get('attributes', []) if a.get('virtual') and is_link_label(a['id'])]
+        want = by_owner.get(j, [])
+        got = [(a['id'], a.get('value')) for a in shown]
+        exp = [(labels[i], values[i]) for i in want if i < len(labels)]
+        if len(got) != len(exp) or any(g[0] != e[0] or not strict_equal(g[1], e[1]) for g, e in zip(got, exp)):
+            if len(problems) < 3:
+                problems.append('entry %d (%s): the nested JSON shows the linked attributes %r, the flat view links %r to it' % (
+                    j + 1, labels[j] if j < len(labels) else '?', got[:6], [(i + 1,) + e for i, e in zip(want, exp)][:6]))
+            return
+        if depth < MAX_ATTR_DEPTH:
+            for a, i in zip(shown, want):
+                check_attrs(a, i, depth + 1)
+
+    def value_param(p):
+        for a in p.get('attributes', []):
+            if 'virtual' not in a:
+                counter[0] += 1
+        j = counter[0]
+        counter[0] += 1
+        check_attrs(p, j, 0)
+
+    def walk(members):
+        for p in members:
+            if 'value' in p:
+                value_param(p)
+            else:
+                if 'factor' in p:
+                    value_param(p['factor'])
+                if 'members' in p:
+                    if p['id'].startswith('1'):
+                        for ms in p['members']:
+                            walk(ms)
+                    else:
+                        walk(p['members'])
+    walk(nested)
+    if counter[0] != len(labels) and not problems:
+        problems.append('the nested JSON holds %d (non-virtual) values, the flat view %d' % (counter[0], len(labels)))
+    return problems
+
+
+def nested_text_entries(text):
+    """per subset: the entries of the nested text as [label, owner entry or -1, line]: for an attribute line
+    (`-> ...`) the owner is the closest preceding line with a smaller indentation"""
+    subsets = []
+    in_data = False
+    stack = []
+    for line in text.split('\n'):
+        if line.startswith('<<<<<<'):
+            in_data = False
+            continue
+        if line.startswith('######'):
+            subsets.append([])
+            stack = []
+            in_data = True
+            continue
+        if not in_data:
+            continue
+        t = line.lstrip(' .')
+        indent = len(line) - len(t)
+        while stack and stack[-1][0] >= indent:
+            stack.pop()
+        if t.startswith('# --- '):
+            stack.append((indent, -1))
+            continue
+        k = len(subsets[-1])
+        if t.startswith('-> '):
+            subsets[-1].append([t[3:9], stack[-1][1] if stack else -1, t])
+        else:
+            subsets[-1].append([t[:6], -1, t])
+        stack.append((indent, k))
+    return subsets
+
+
+NOVALUE = object()
+
+
+def nested_json_entries(nested):
+    """the same entries derived from the nested JSON: [id, owner entry or -1, value or NOVALUE]"""
+    def emit(out, v, owner):
+        k = len(out)
+        out.append([v['id'], owner, v['value'] if 'value' in v else NOVALUE])
+        for a in v.get('attributes', []):
+            emit(out, a, k)
+
+    def walk(out, nodes):
+        for n in nodes:
+            if 'value' in n:
+                emit(out, n, -1)
+                continue
+            out.append([n['id'], -1, NOVALUE])
+            if 'factor' in n:
+                emit(out, n['factor'], -1)
+            if 'members' in n:
+                if n['id'].startswith('1'):
+                    for ms in n['members']:
+                        walk(out, ms)
+                else:
+                    walk(out, n['members'])
+    res = []
+    for sub in nested:
+        out = []
+        walk(out, sub)
+        res.append(out)
+    return res
+
+
+def nested_text_owner_problems(text, nested):
+    """nested text against nested JSON, entry by entry: same label, same owner entry for every attribute line, and
+    the line of a value entry ends with the repr of the value the nested JSON holds"""
+    problems = []
+    for k, (te, je) in enumerate(zip(nested_text_entries(text), nested_json_entries(nested))):
+        if len(te) != len(je):
+            problems.append('subset %d: %d entries in the nested text, %d in the nested JSON' % (k + 1, len(te), len(je)))
+            continue
+        for n, (t, j) in enumerate(zip(te, je)):
+            if t[0] != j[0]:
+                why = 'label %s vs %s' % (t[0], j[0])
+            elif t[1] != j[1]:
+                why = 'the text shows it under entry %s, the JSON under entry %s' % (
+                    (t[1], te[t[1]][2][:40]) if t[1] >= 0 else None, (j[1], je[j[1]][0]) if j[1] >= 0 else None)
+            elif j[2] is NOVALUE:
+                why = None       # operator / replication / sequence line (a sequence line carries its Table D name)
+            else:
+                why = None if t[2].endswith(' ' + repr(j[2])) else 'the text line does not end with the value %r of the JSON entry' % (j[2],)
+            if why:
+                problems.append('subset %d entry %d (%s): %s' % (k + 1, n, t[2][:60], why))
+                break
+    return problems[:3]
+
+
+def owner_checks(out, texts):
+    """-> {'problems': [(stage, description)], 'links': n, 'exempt': n} : cross-format consistency of the attribute owners"""
+    res = {'problems': [], 'links': 0, 'exempt': 0, 'subsets_differing': 0}
+    subs = out['subsets']
+    ft = flat_text_links(texts['flat_text']) if 'flat_text' in texts else None
+    prev = None
+    for k, s in enumerate(subs):
+        links = [list(x) for x in s['l']]
+        res['links'] += len(links)
+        if prev is not None and prev[0] == s['d'] and prev[1] != links:
+            res['subsets_differing'] += 1
+        prev = (s['d'], links)
+        if ft is not None:
+            if k >= len(ft) or ft[k]['links'] != links or ft[k]['labels'] != [l[:6] for l in s['d']]:
+                res['problems'].append(('flat_text_links', 'subset %d: the `-> N` column of the flat text gives the links %s, bitmap_links %s' % (
+                    k + 1, ft[k]['links'][:8] if k < len(ft) else None, links[:8])))
+                continue
+        # a class 33 value that carries an associated field is wired as a plain value (C07 F11-C07-wire-qa33)
+        exempt = set(a for a, o in links if a > 0 and s['d'][a - 1][:1] == 'A')
+        res['exempt'] += len(exempt)
+        if isinstance(out.get('tree'), list):
+            tl = tree_links(out['tree'][k])
+            want = set((a, o) for a, o in links if a not in exempt)
+            if tl != want:
+                extra, missing = sorted(tl - want), sorted(want - tl)
+                res['problems'].append(('owners', 'subset %d: node tree attaches (attribute entry, owner entry) %s which the flat view does not link; '
+                                        'links of the flat view not shown in the tree: %s' % (
+                                            k + 1, [(a + 1, o + 1) for a, o in extra][:6], [(a + 1, o + 1) for a, o in missing][:6])))
+                continue
+        if 'nested' in out:
+            pr = nested_json_owner_problems(out['nested'][k], s['d'], s['v'], links, exempt)
+            if pr:
+                res['problems'].append(('owners_nested_json', 'subset %d: %s' % (k + 1, pr[0])))
+    if 'nested' in out and 'nested_text' in texts:
+        for p in nested_text_owner_problems(texts['nested_text'], out['nested']):
+            res['problems'].append(('owners_nested_text', p))
+    return res
+
+
 def observe(b, encode=True, max_values=None):
     """Everything the C09 oracle and the correspondence need from the implementation for message bytes `b`.
     -> dict; 'decode' is 'ok' or an error tag (then nothing else is present)."""
@@ -284,6 +529,8 @@ def observe(b, encode=True, max_values=None):
                     j = next((j for j, (p, q) in enumerate(zip(x, y)) if p != q), min(len(x), len(y)))
                     stages['nested_text']['layout_diff'] = 'subset %d entry %d: text %s, JSON %s' % (k, j, x[j:j + 1], y[j:j + 1])
                     break
+    # -- attribute owners across the four views
+    out['owners'] = owner_checks(out, texts)
     # -- encodings as the CLI makes them (JSON formats go through json.dumps / json.loads)
     if encode:
         enc = {}
